@@ -53,49 +53,80 @@ def content_key(x):
     return (tuple(x.shape),) + tuple(P(v).key() for v in np.asarray(x, dtype=object).reshape(-1))
 
 
-class Spec:
-    """A frequency-domain array (all frequencies at once): commutative polynomial in the generators
-    ('F', key) = fft2 of the spatial array with contents `key`, ('Fc', key) its conjugate, real
-    scalars, ('absS', polykey) = |S|, ('inv', polykey).  Elementwise algebra only."""
+def _obj0(v):
+    t = np.empty((), dtype=object)
+    t[()] = v
+    return t
 
-    def __init__(self, dom, poly, shape):
-        self.dom, self.poly, self.shape = dom, poly, tuple(shape)
+
+def _ew(op, a, b=None):
+    """elementwise op on object arrays of Poly with numpy broadcasting; always returns an ndarray"""
+    r = np.frompyfunc(op, 1 if b is None else 2, 1)(*((a,) if b is None else (a, b)))
+    return r if isinstance(r, np.ndarray) else _obj0(r)
+
+
+class Spec:
+    """A frequency-domain array, all frequencies of the two transformed (leading) axes at once, with
+    optional trailing batch axes (channels): logical shape = fshape + batch shape; `polys` is an
+    object array over the batch axes of commutative polynomials in the generators ('F', key) =
+    fft2 of the 2-D spatial array with contents `key`, ('Fc', key) its conjugate, real scalars,
+    ('absS', polykey) = |S|, ('inv', polykey).  Elementwise algebra with numpy broadcasting over the
+    batch axes; the frequency axes can only be taken whole."""
+
+    __array_ufunc__ = None       # ndarray (op) Spec defers to Spec's reflected method
+
+    def __init__(self, dom, polys, fshape):
+        self.dom, self.fshape = dom, tuple(fshape)
+        self.polys = polys if isinstance(polys, np.ndarray) else _obj0(polys)
+
+    @property
+    def shape(self):
+        return self.fshape + tuple(self.polys.shape)
+
+    @property
+    def ndim(self):
+        return 2 + self.polys.ndim
 
     def __repr__(self):
-        return f"Spec{self.shape}[{self.poly!r}]"
+        return f"Spec{self.shape}[{self.polys.tolist()!r}]"
 
     def _other(self, o):
         if isinstance(o, Spec):
-            if o.shape != self.shape:
+            if o.fshape != self.fshape:
                 raise ModelError(f"operands could not be broadcast together with shapes {self.shape} {o.shape}")
-            return o.poly
+            return o.polys
         if isinstance(o, Poly) or (is_number(o) and not isinstance(o, bool)):
-            return P(o)
+            return _obj0(P(o))
         return None
 
-    def _mk(self, poly):
-        return Spec(self.dom, poly, self.shape)
+    def _mk(self, polys):
+        return Spec(self.dom, polys, self.fshape)
+
+    def _bin(self, op, o, swapped=False):
+        p = self._other(o)
+        if p is None:
+            return NotImplemented
+        try:
+            return self._mk(_ew(op, p, self.polys) if swapped else _ew(op, self.polys, p))
+        except ValueError as e:          # batch axes do not broadcast
+            raise ModelError(str(e))
 
     def __add__(self, o):
-        p = self._other(o)
-        return NotImplemented if p is None else self._mk(self.poly + p)
+        return self._bin(lambda a, b: a + b, o)
 
     __radd__ = __add__
 
     def __sub__(self, o):
-        p = self._other(o)
-        return NotImplemented if p is None else self._mk(self.poly - p)
+        return self._bin(lambda a, b: a - b, o)
 
     def __rsub__(self, o):
-        p = self._other(o)
-        return NotImplemented if p is None else self._mk(p - self.poly)
+        return self._bin(lambda a, b: a - b, o, True)
 
     def __neg__(self):
-        return self._mk(-self.poly)
+        return self._mk(_ew(lambda a: -a, self.polys))
 
     def __mul__(self, o):
-        p = self._other(o)
-        return NotImplemented if p is None else self._mk(self.poly * p)
+        return self._bin(lambda a, b: a * b, o)
 
     __rmul__ = __mul__
 
@@ -106,12 +137,10 @@ class Spec:
         return p.inverse()
 
     def __truediv__(self, o):
-        p = self._other(o)
-        return NotImplemented if p is None else self._mk(self.poly * self._inv(p))
+        return self._bin(lambda a, b: a * self._inv(b), o)
 
     def __rtruediv__(self, o):
-        p = self._other(o)
-        return NotImplemented if p is None else self._mk(p * self._inv(self.poly))
+        return self._bin(lambda a, b: a * self._inv(b), o, True)
 
     def __pow__(self, e):
         if isinstance(e, Poly) and e.is_const():
@@ -119,30 +148,73 @@ class Spec:
         if not (is_number(e) and float(e) == int(e) and int(e) >= 0):
             raise Unsupported(f"power {e!r} of a spectrum")
         e = int(e)
-        s = self.poly.as_single_atom()
-        if e == 2 and s is not None and s[0] == 1 and s[2] == 1 and isinstance(s[1], tuple) and s[1][0] == "absS":
-            inner = self.dom.abs_args[s[1][1]]
-            return self._mk(inner * self.dom.conj_poly(inner))       # |S|^2 = S conj(S)
-        return self._mk(self.poly ** e)
+
+        def one(p):
+            s = p.as_single_atom()
+            if e == 2 and s is not None and s[0] == 1 and s[2] == 1 and isinstance(s[1], tuple) and s[1][0] == "absS":
+                inner = self.dom.abs_args[s[1][1]]
+                return inner * self.dom.conj_poly(inner)       # |S|^2 = S conj(S)
+            return p ** e
+        return self._mk(_ew(one, self.polys))
 
     def __abs__(self):
-        self.dom.abs_args[self.poly.key()] = self.poly
-        return self._mk(Poly.atom(("absS", self.poly.key())))
+        def one(p):
+            self.dom.abs_args[p.key()] = p
+            return Poly.atom(("absS", p.key()))
+        return self._mk(_ew(one, self.polys))
 
     def conjugate(self):
-        return self._mk(self.dom.conj_poly(self.poly))
+        return self._mk(_ew(self.dom.conj_poly, self.polys))
 
     conj = conjugate
 
+    def batch_index(self, idx):
+        """numpy index on the logical array; the two frequency axes must be taken whole"""
+        if not isinstance(idx, tuple):
+            idx = (idx,)
+        n_real = sum(1 for i in idx if i is not None and i is not Ellipsis)
+        if sum(1 for i in idx if i is Ellipsis) > 1:
+            raise ModelError("an index can only have a single ellipsis")
+        if any(i is Ellipsis for i in idx):
+            k = list(idx).index(Ellipsis)
+            fill = self.ndim - n_real
+            if fill < 0:
+                raise ModelError("too many indices for array")
+            idx = idx[:k] + (slice(None),) * fill + idx[k + 1:]
+        full = slice(None)
+        if len(idx) < 2 or not all(isinstance(i, slice) and i == full for i in idx[:2]):
+            if len(idx) < 2 and all(isinstance(i, slice) and i == full for i in idx):
+                return ()
+            raise Unsupported("indexing into the frequency axes of a spectrum")
+        return tuple(idx[2:])
 
-class ISpec:
-    """ifft2 of a spectrum: a complex spatial array; only its real part can be materialised."""
+    def __getitem__(self, idx):
+        rest = self.batch_index(idx)
+        try:
+            r = self.polys[rest] if rest else self.polys
+        except IndexError as e:
+            raise ModelError(str(e))
+        return type(self)(self.dom, r if isinstance(r, np.ndarray) else _obj0(r), self.fshape)
 
-    def __init__(self, dom, poly, shape):
-        self.dom, self.poly, self.shape = dom, poly, tuple(shape)
+
+class ISpec(Spec):
+    """ifft2 of a spectrum: a complex spatial array (same layout); only slicing of the batch axes
+    and taking the real part are modelled."""
+
+    def _bin(self, op, o, swapped=False):
+        raise Unsupported("arithmetic on an un-materialised ifft2 result")
+
+    def __neg__(self):
+        raise Unsupported("arithmetic on an un-materialised ifft2 result")
+
+    __abs__ = __pow__ = conjugate = conj = lambda self, *a: (_ for _ in ()).throw(
+        Unsupported("operation on an un-materialised ifft2 result"))
 
     def real_array(self):
-        return re_ifft2_array(self.poly, self.shape)
+        out = mk(self.shape, "real")
+        for b in itertools.product(*[range(s) for s in self.polys.shape]):
+            out[(slice(None), slice(None)) + b] = np.asarray(re_ifft2_array(self.polys[b], self.fshape), dtype=object)
+        return out
 
 
 def re_ifft2_array(poly, shape):
@@ -170,24 +242,41 @@ class FftDomain(SymDomain):
     def F(self, x):
         return Poly.atom(("F", content_key(x)))
 
-    def fft2(self, x, *a, **k):
-        if a or k:
-            raise Unsupported("fft2 with s= / axes= / norm= arguments")
+    @staticmethod
+    def _leading_axes(axes, ndim, what):
+        """the model covers 2-D transforms over the two LEADING axes, batch axes trailing"""
+        if axes is None:
+            axes = (-2, -1)
+        try:
+            ax = tuple(int(a) % ndim for a in axes)
+        except (TypeError, ValueError):
+            raise Unsupported(f"{what}: axes={axes!r}")
+        if ax != (0, 1):
+            raise Unsupported(f"{what} over axes {axes!r} of a {ndim}-d array (model: the two leading axes)")
+
+    def fft2(self, x, s=None, axes=None, norm=None, **k):
+        if s is not None or k or norm not in (None, "backward"):
+            raise Unsupported("fft2 with s= / norm= / out= arguments")
         if isinstance(x, (Spec, ISpec)):
             raise Unsupported("fft2 of a spectrum / of an un-materialised ifft2")
         x = wrap(x)
-        if x.ndim != 2 or x.kind != "real":
+        if x.ndim < 2 or x.kind != "real":
             raise Unsupported(f"fft2 of a {x.kind} array with ndim {x.ndim}")
+        self._leading_axes(axes, x.ndim, "fft2")
         self.fft_calls.append(("fft2", x))
-        return Spec(self, self.F(x), x.shape)
+        polys = np.empty(x.shape[2:], dtype=object)
+        for b in itertools.product(*[range(n) for n in x.shape[2:]]):
+            polys[b] = self.F(x[(slice(None), slice(None)) + b])
+        return Spec(self, polys, x.shape[:2])
 
-    def ifft2(self, s, *a, **k):
-        if a or k:
-            raise Unsupported("ifft2 with s= / axes= / norm= arguments")
-        if not isinstance(s, Spec):
+    def ifft2(self, sp, s=None, axes=None, norm=None, **k):
+        if s is not None or k or norm not in (None, "backward"):
+            raise Unsupported("ifft2 with s= / norm= / out= arguments")
+        if not isinstance(sp, Spec) or isinstance(sp, ISpec):
             raise Unsupported("ifft2 of a value that is not a spectrum expression")
-        self.fft_calls.append(("ifft2", s))
-        return ISpec(self, s.poly, s.shape)
+        self._leading_axes(axes, sp.ndim, "ifft2")
+        self.fft_calls.append(("ifft2", sp))
+        return ISpec(self, sp.polys, sp.fshape)
 
     def conj_poly(self, p):
         mapping = {}
@@ -215,23 +304,30 @@ class FftDomain(SymDomain):
         return super().np_real(a)
 
     def np_imag(self, a):
-        if isinstance(a, (Spec, ISpec)):
+        if isinstance(a, Spec):
             raise Unsupported("np.imag of a spectrum")
         return super().np_imag(a)
 
     def getattr(self, interp, obj, attr, node=None):
-        if isinstance(obj, (Spec, ISpec)):
+        if isinstance(obj, Spec):
             if attr == "shape":
                 return obj.shape
+            if attr == "ndim":
+                return obj.ndim
             if attr == "real" and isinstance(obj, ISpec):
                 return obj.real_array()
-            if attr in ("conj", "conjugate") and isinstance(obj, Spec):
+            if attr in ("conj", "conjugate") and not isinstance(obj, ISpec):
                 return obj.conjugate
             raise Unsupported(f"attribute {attr!r} of a spectrum")
         return super().getattr(interp, obj, attr, node)
 
+    def getitem(self, interp, obj, idx, node):
+        if isinstance(obj, Spec):
+            return obj[self._conv_index(idx)]
+        return super().getitem(interp, obj, idx, node)
+
     def setitem(self, interp, obj, idx, v, node):
-        if isinstance(v, (Spec, ISpec)):
+        if isinstance(v, Spec):
             raise Unsupported("store of a complex spectrum / un-materialised ifft2 into an array")
         return super().setitem(interp, obj, idx, v, node)
 
